@@ -314,8 +314,8 @@ fn call(s: &Sys, ep: Ep, alt: bool) -> bool {
         Ep::GasTransferOwnership => ok!(s.gas.try_transfer_ownership(who)),
         Ep::GasUpgrade => ok!(s.gas.try_upgrade(&hash)),
         Ep::GasMigrate => ok!(s.gas.try_migrate(&())),
-        Ep::GasCollectFees => ok!(s.gas.try_collect_fees(who, &Token { address: s.asset.clone(), amount })),
-        Ep::GasRefund => ok!(s.gas.try_refund(&sstr(env, "msg-1"), who, &Token { address: s.asset.clone(), amount })),
+        Ep::GasCollectFees => ok!(s.gas.try_collect_fees(who, &Token { address: s.asset.clone(), amount: payout_amount(s, alt) })),
+        Ep::GasRefund => ok!(s.gas.try_refund(&sstr(env, "msg-1"), who, &Token { address: s.asset.clone(), amount: payout_amount(s, alt) })),
         Ep::OpsTransferOwnership => ok!(s.ops.try_transfer_ownership(who)),
         Ep::OpsUpgrade => ok!(s.ops.try_upgrade(&hash)),
         Ep::OpsMigrate => ok!(s.ops.try_migrate(&())),
@@ -351,7 +351,10 @@ fn effect_visible(s: &Sys, ep: Ep) -> Result<(), String> {
         Ep::TokTransferOwnership | Ep::TokSetAdmin => s.token.owner() == *who,
         Ep::GwRotateBypass => s.gw.epoch() == 2,
         Ep::GwRotateBypassOlderSet => s.gw.epoch() == 3,
-        Ep::GasCollectFees | Ep::GasRefund => t.balance(who) == 1 && t.balance(&s.gas.address) == 999,
+        Ep::GasCollectFees | Ep::GasRefund => {
+            let a = if *who == s.gas.gas_collector() { 1000 } else { 1 };
+            t.balance(who) == a && t.balance(&s.gas.address) == 1000 - a
+        }
         Ep::OpsAddOperator => s.ops.is_operator(who),
         Ep::OpsRemoveOperator => !s.ops.is_operator(who),
         Ep::ItsSetTrustedChain => s.its.is_trusted_chain(&sstr(env, "chain-a")),
@@ -456,7 +459,22 @@ fn build(case: &Case) -> (Sys<'static>, RoleModel) {
             _ => {}
         }
     }
+    if matches!(case.ep, Ep::GasCollectFees | Ep::GasRefund) && case.successor % 4 == 3 {
+        // the payout names the collector itself as receiver and asks for everything the service holds
+        s.named = s.pool[m.holder[&Role::GasCollector]].clone();
+    }
     (s, m)
+}
+
+/// amount of the studied payout: 1 (2 for the other-arguments variant), or the whole balance when the collector is the receiver
+fn payout_amount(s: &Sys, alt: bool) -> i128 {
+    if alt {
+        2
+    } else if s.named == s.gas.gas_collector() {
+        1000
+    } else {
+        1
+    }
 }
 
 impl Property for C06 {
@@ -514,6 +532,9 @@ impl Property for C06 {
                     v.push(Case { history: vec![Xfer { role: 0, to: 8 }, Xfer { role: 2, to: 8 }], ep, principal: p, pre_applied: false, window_open: false, sweep: None, successor: 0, prepared_by_earlier_holder: false, single_key: true });
                     v.push(Case { history: vec![], ep, principal: p, pre_applied: false, window_open: false, sweep: None, successor: 0, prepared_by_earlier_holder: false, single_key: true });
                 }
+                if matches!(ep, Ep::GasCollectFees | Ep::GasRefund) {
+                    v.push(Case { history: vec![], ep, principal: p, pre_applied: false, window_open: false, sweep: None, successor: 3, prepared_by_earlier_holder: false, single_key: false });
+                }
                 if ep.is_transfer().is_some() {
                     for successor in 1..4u8 {
                         v.push(Case { history: vec![], ep, principal: p, pre_applied: false, window_open: false, sweep: None, successor, prepared_by_earlier_holder: false, single_key: false });
@@ -530,6 +551,10 @@ impl Property for C06 {
         }
         let ep = case.ep;
         let role = ep.role();
+        if matches!(ep, Ep::GasCollectFees | Ep::GasRefund) && case.successor % 4 == 3 {
+            cx.label("payout_of_the_whole_balance_to_the_collector_itself");
+            cx.nontrivial();
+        }
         if ep.is_transfer().is_some() && case.successor % 4 != 0 {
             if matches!(case.successor % 4, 1 | 2) && case.principal == Principal::Beneficiary {
                 // a contract cannot sign
